@@ -1023,3 +1023,80 @@ impl World for ThreadsWorld {
         Outcome { violations, log_hash: log.0, nontrivial: active_threads >= 2 && total_events >= 12 }
     }
 }
+
+
+/// Hook-free workload for Miri (`-Zmiri-many-seeds`): plain `std::thread`s on
+/// one `AtomicBaseTime`; no simulator hook is registered, so the stand-ins
+/// pass straight through to `std`.  Returns the process exit code.
+pub fn plain_threads_scenario(seed: u64) -> i32 {
+    use std::sync::Arc;
+    let mut rng = Rng::new(seed ^ 0x3141);
+    let abt = Arc::new(AtomicBaseTime::new());
+    let nw = rng.range(1, 2);
+    let nr = rng.range(1, 2);
+    let mut handles = Vec::new();
+    let mut max_base = 0u64;
+    let mut next = 1u64;
+    for w in 0..nw {
+        let a = abt.clone();
+        let n = rng.range(1, 3);
+        let bases: Vec<u64> = (0..n).map(|_| { next += 1; base_of(next) }).collect();
+        max_base = max_base.max(*bases.iter().max().unwrap());
+        let use_try = rng.chance(1, 3);
+        handles.push(std::thread::spawn(move || {
+            for b in bases {
+                if use_try && w == 1 {
+                    let _ = a.try_update((b, VOUCH.vouch(b)));
+                } else {
+                    a.update((b, VOUCH.vouch(b)));
+                }
+            }
+            Vec::new()
+        }));
+    }
+    for _ in 0..nr {
+        let a = abt.clone();
+        let n = rng.range(1, 3);
+        handles.push(std::thread::spawn(move || {
+            let mut seen = Vec::new();
+            for _ in 0..n {
+                // snapshot() asserts internally that the pair is not torn.
+                let (b, v) = a.snapshot();
+                assert!(VOUCH.checking_parameters().check(b, v), "torn pair");
+                seen.push(b);
+            }
+            seen
+        }));
+    }
+    let mut bad = 0;
+    for h in handles {
+        match h.join() {
+            Ok(seen) => {
+                if seen.windows(2).any(|w| w[1] < w[0]) {
+                    println!("FOUND C13 C13.went_backwards (plain threads, seed {}): {:?}", seed, seen);
+                    bad += 1;
+                }
+                if seen.iter().any(|b| *b != 0 && (*b < base_of(2) || (*b - 1_000) % 10 != 0)) {
+                    println!("FOUND C13 C13.unknown_pair (plain threads, seed {}): {:?}", seed, seen);
+                    bad += 1;
+                }
+            }
+            Err(_) => {
+                println!("FOUND C13 C13.panic (plain threads, seed {})", seed);
+                bad += 1;
+            }
+        }
+    }
+    // Everything has been joined: a snapshot now must see the newest update
+    // that was accepted (updates that all use blocking update() with
+    // increasing bases per writer: at least each writer's last one is not older
+    // than the final value).
+    let (b, _) = abt.snapshot();
+    if b == 0 {
+        println!("FOUND C13 C13.stale_snapshot (plain threads, seed {}): final snapshot still at the epoch", seed);
+        bad += 1;
+    }
+    let _ = max_base;
+    println!("DONE plain-threads seed={} final={}", seed, b);
+    if bad > 0 { 1 } else { 0 }
+}
